@@ -1260,7 +1260,19 @@ fn parse_expression_with_trailing(
                 {
                     let variable = parse_symbol(tokens, id_gen, diagnostics, Some("method name"));
 
-                    if peeked_symbol_is(tokens, "(") {
+                    // As with function calls, require the open
+                    // parenthesis to touch the method name. Otherwise
+                    // `foo.bar` followed by a parenthesised expression
+                    // on the next line would be a method call.
+                    let paren_touches = match tokens.peek() {
+                        Some(next) => {
+                            next.text == "("
+                                && variable.position.end_offset == next.position.start_offset
+                        }
+                        None => false,
+                    };
+
+                    if paren_touches {
                         // TODO: just treat a method call as a call of a dot access.
                         let arguments = parse_call_arguments(tokens, id_gen, diagnostics);
 
